@@ -35,7 +35,7 @@ import (
 
 type tpo = kafka.VerifC03TPO
 
-var topics = []string{"t0", "t1", "t2"}
+var topics = []string{"t0", "t1", "t2", "t3"}
 
 func tidx(topic string) int {
 	for i, t := range topics {
@@ -72,6 +72,14 @@ var (
 	outMu sync.Mutex
 	outN  int
 )
+
+func emitE2E(args, res, feats string) {
+	if strings.HasPrefix(args, "@quiet ") {
+		emit("quiet", strings.TrimPrefix(args, "@quiet "), res, feats)
+		return
+	}
+	emit("hist", args, res, feats)
+}
 
 func emit(op, args, res, feats string) {
 	outMu.Lock()
@@ -601,6 +609,8 @@ type scen struct {
 	rebal    bool
 	scripted string // "lastoffset": the replay of the Coq refutation witness; "codes"; "evict"
 	code     int16  // "codes": the error code every partition of the next OffsetCommit answers carries
+	missing  int    // "quiet": index of the subscribed topic that does not exist (-1: all exist)
+	partsPer []int  // "quiet": partitions of each subscribed topic
 	verdict  string // set by scripted scenarios: "ok" or "STALLED:..." / "NILNOTRECORDED:..."
 }
 
@@ -976,12 +986,111 @@ func runCommitAtEnd(b *groupfake.Broker, sc scen, fs map[string]bool, rng *rand.
 	return "ok"
 }
 
+// ---- multi-topic subscriptions run to quiescence: the group subscribes to 2-4 topics
+// (GroupTopics) of which at most one does not exist; the leader's assignment (computed by the
+// real assignTopicPartitions + balancer from per-topic metadata) must cover every partition of
+// every existing topic in the final generation, and every stored record must be delivered.
+func runQuiet(b *groupfake.Broker, sc scen, fs map[string]bool, rng *rand.Rand) string {
+	type tpk struct {
+		t string
+		p int
+	}
+	want := map[tpk]int64{}
+	total := 0
+	for i := 0; i < sc.topics; i++ {
+		if i == sc.missing {
+			continue
+		}
+		for p := 0; p < sc.partsPer[i]; p++ {
+			n := 1 + rng.Intn(4)
+			b.Append(topics[i], p, n)
+			want[tpk{topics[i], p}] = int64(n)
+			total += n
+		}
+	}
+	if sc.missing >= 0 {
+		fs[fmt.Sprintf("missing-topic-at=%d/%d", sc.missing, sc.topics)] = true
+	}
+	var ms []*member
+	for i := 0; i < sc.members; i++ {
+		c := fmt.Sprintf("c%d", i)
+		ms = append(ms, &member{i, c, newReader(b, sc, c), nil})
+	}
+	defer func() {
+		for _, m := range ms {
+			m.r.Close()
+		}
+	}()
+	// the group settles: every member has synced in the coordinator's current generation
+	settled := func() bool {
+		if b.State() != "Stable" || len(b.Members()) != len(ms) {
+			return false
+		}
+		g := b.Generation()
+		n := 0
+		for _, e := range b.History() {
+			if e.Kind == "sync" && e.Code == 0 && e.Drop == 0 && e.Gen == g {
+				n++
+			}
+		}
+		return n >= len(ms)
+	}
+	if !waitCond(10*time.Second, settled) {
+		return "STALLED:the group did not settle in a stable generation within the watchdog"
+	}
+	// what the leader distributed in this generation must cover the existing partitions
+	g := b.Generation()
+	b.Record(groupfake.Event{Kind: "note", Note: "quiescent", Gen: g})
+	covered := map[tpk]bool{}
+	for _, e := range b.History() {
+		if e.Kind == "sync" && e.Code == 0 && e.Gen == g {
+			for _, t := range e.TPs {
+				covered[tpk{t.Topic, t.Partition}] = true
+			}
+		}
+	}
+	verdict := "ok"
+	for k := range want {
+		if !covered[k] && (verdict == "ok" || verdict > fmt.Sprintf("UNCOVERED:%s/%d", k.t, k.p)) {
+			verdict = fmt.Sprintf("UNCOVERED:%s/%d", k.t, k.p)
+		}
+	}
+	seen := map[string]bool{}
+	dl := time.Now().Add(10 * time.Second)
+	if verdict != "ok" {
+		dl = time.Now().Add(300 * time.Millisecond) // already decided: just record some deliveries
+	}
+	for i := 0; len(seen) < total && time.Now().Before(dl); i++ {
+		m := ms[i%len(ms)]
+		if m.fetch(b, 40*time.Millisecond) {
+			x := m.held[len(m.held)-1]
+			seen[fmt.Sprintf("%s/%d/%d", x.Topic, x.Partition, x.Offset)] = true
+			m.commit(b, m.held[len(m.held)-1:])
+		}
+	}
+	if verdict == "ok" && len(seen) < total {
+		if b.Generation() != g {
+			return "STALLED:the group left its generation and not every record was delivered within the watchdog"
+		}
+		return fmt.Sprintf("STALLED:only %d of %d stored records of the existing topics delivered within the watchdog", len(seen), total)
+	}
+	return verdict
+}
+
 func runScenario(seed int64, sc scen) (args string, feats string, verdict string) {
 	verdict = "ok"
 	rng := rand.New(rand.NewSource(seed))
 	tcfg := map[string]int{}
 	for i := 0; i < sc.topics; i++ {
 		tcfg[topics[i]] = sc.parts
+	}
+	if sc.scripted == "quiet" {
+		tcfg = map[string]int{}
+		for i := 0; i < sc.topics; i++ {
+			if i != sc.missing {
+				tcfg[topics[i]] = sc.partsPer[i]
+			}
+		}
 	}
 	b := groupfake.New(groupfake.Config{Topics: tcfg})
 	defer b.Close()
@@ -994,6 +1103,8 @@ func runScenario(seed int64, sc scen) (args string, feats string, verdict string
 		verdict = runEvict(b, sc, fs, rng)
 	} else if sc.scripted == "commit-at-end" {
 		verdict = runCommitAtEnd(b, sc, fs, rng)
+	} else if sc.scripted == "quiet" {
+		verdict = runQuiet(b, sc, fs, rng)
 	} else {
 		for i := 0; i < sc.topics; i++ {
 			for p := 0; p < sc.parts; p++ {
@@ -1112,6 +1223,20 @@ func runScenario(seed int64, sc scen) (args string, feats string, verdict string
 	}
 	h := b.History()
 	args = encodeHistory(sc, h, fs)
+	if sc.scripted == "quiet" {
+		// op "quiet": the history plus the partitions of the EXISTING subscribed topics
+		var ex []string
+		for i := 0; i < sc.topics; i++ {
+			if i == sc.missing {
+				continue
+			}
+			for p := 0; p < sc.partsPer[i]; p++ {
+				ex = append(ex, kvfmt.I(int64(i))+":"+kvfmt.I(int64(p)))
+			}
+		}
+		f := strings.SplitN(args, " ", 3)
+		args = "@quiet " + f[0] + " " + f[1] + " " + strings.Join(ex, ",") + " " + f[2]
+	}
 	var fl []string
 	for k := range fs {
 		fl = append(fl, k)
@@ -1244,6 +1369,10 @@ func encodeHistory(sc scen, h []groupfake.Event, fs map[string]bool) string {
 				}
 			}
 			toks = append(toks, "D="+r+":"+H(v)+":"+tp(t)+":"+H(t.Offset))
+		case "note":
+			if e.Note == "quiescent" {
+				toks = append(toks, "Q="+H(int64(e.Gen)))
+			}
 		case "ccall":
 			toks = append(toks, "C="+r+":"+H(int64(e.ID))+":"+tpo3(e.TPs))
 		case "cret":
@@ -1280,6 +1409,16 @@ func e2eCases(seed int64, n int) {
 		for i := 0; i < 6; i++ {
 			scs = append(scs, scen{name: "commit-at-generation-end", sync: true, start: kafka.FirstOffset, members: 1, topics: 1,
 				parts: 3 + rng.Intn(4), scripted: "commit-at-end"})
+		}
+		for i := 0; i < 8; i++ {
+			nt := 2 + i%3
+			missing := []int{-1, 0, nt / 2, nt - 1, 0, nt - 1, -1, nt / 2}[i]
+			pp := make([]int, nt)
+			for j := range pp {
+				pp[j] = 1 + rng.Intn(3)
+			}
+			scs = append(scs, scen{name: "multi-topic-quiescence", sync: i%4 != 3, start: kafka.FirstOffset, members: 1 + i%3, topics: nt,
+				parts: 0, scripted: "quiet", missing: missing, partsPer: pp})
 		}
 		for i := 0; i < 6; i++ {
 			scs = append(scs, scen{name: "evict-liveness", sync: i%2 == 0, start: kafka.FirstOffset, members: 1 + i%2, topics: 1,
@@ -1348,7 +1487,7 @@ func e2eCases(seed int64, n int) {
 					mu.Unlock()
 					return
 				}
-				emit("hist", r[0], r[2], r[1])
+				emitE2E(r[0], r[2], r[1])
 			}()
 		}
 		wg.Wait()
@@ -1370,16 +1509,16 @@ func e2eCases(seed int64, n int) {
 	confirm := func() {
 		for _, st := range stalled {
 			if confirmed || reruns >= 3 {
-				emit("hist", st.r[0], st.r[2], st.r[1]+",unconfirmed-breaker")
+				emitE2E(st.r[0], st.r[2], st.r[1]+",unconfirmed-breaker")
 				continue
 			}
 			reruns++
 			r, stall := runOne(st.seed, st.sc)
 			if stall {
 				confirmed = true
-				emit("hist", r[0], r[2], r[1]+",confirmed-alone")
+				emitE2E(r[0], r[2], r[1]+",confirmed-alone")
 			} else {
-				emit("hist", r[0], r[2], r[1]+",stalled-once-ok-alone")
+				emitE2E(r[0], r[2], r[1]+",stalled-once-ok-alone")
 			}
 		}
 		stalled = nil
@@ -1387,7 +1526,7 @@ func e2eCases(seed int64, n int) {
 	confirm()
 	if confirmed {
 		// the tree stalls: do not burn minutes in the random scenarios (they would spin too)
-		emit("hist", "1 -2 .", "ok", "random-scenarios-skipped-after-confirmed-stall")
+		emitE2E("1 -2 .", "ok", "random-scenarios-skipped-after-confirmed-stall")
 		return
 	}
 	// phase 2: the random scenarios
